@@ -349,6 +349,8 @@ int         _dbus_get_fail_alloc_counter        (void);
 #ifdef DBUS_VERIF_HOOKS
 DBUS_PRIVATE_EXPORT
 void        _dbus_verif_set_second_fail_gap     (int  gap);
+DBUS_PRIVATE_EXPORT
+int         _dbus_verif_get_second_fail_gap     (void);
 #endif
 void        _dbus_set_fail_alloc_failures       (int  failures_per_failure);
 int         _dbus_get_fail_alloc_failures       (void);
